@@ -70,13 +70,15 @@ def run_one(ctx, g, pos, shift, byname, variant_name=None, pos_as="list"):
     elif pos_as == "int-if-integral" and all(x.is_integer() for x in fpos):
         fpos = [int(x) for x in fpos]
         ctx.event("integer-typed-position")
+    cc = GR.fresh(g.choice)
     if byname:
+        variant_name = GR.fresh(variant_name)
         if g.choice == "rhombohedral" and variant_name.replace(" ", "").lower().endswith("r") and len(fpos) and int(abs(float(fpos[0])) * 1000) % 2:
             m = structure.multiplicity(fpos, sgname=variant_name)          # the trailing r of the name selects the setting
         else:
-            m = structure.multiplicity(fpos, sgname=variant_name, cell_choice=g.choice)
+            m = structure.multiplicity(fpos, sgname=variant_name, cell_choice=cc)
     else:
-        m = structure.multiplicity(fpos, sgno=g.no, cell_choice=g.choice)
+        m = structure.multiplicity(fpos, sgno=g.no, cell_choice=cc)
     if not byname:
         ctx.later("multiplicity", structure.multiplicity, [float(x) for x in fpos], None, g.no, g.choice)
     if m != exact:
@@ -105,6 +107,40 @@ def check(case, ctx):
     if exact is None:
         return
     ctx._sample_view = {"group": "%s (Sg%d, %s)" % (g.name, g.no, g.choice), "position": [str(p) for p in pos], "shift": case["shift"], "orbit_size": exact}
+    if sib is not None and ch == "standard":
+        # independent of the tables: the hexagonal cell holds three rhombohedral cells, so under the obverse axis
+        # transformation x_r = (x+z, -x+y+z, -y+z) the multiplicity on hexagonal axes is three times the rhombohedral one
+        from xfab import structure
+        xr = [pos[0] + pos[2], -pos[0] + pos[1] + pos[2], -pos[1] + pos[2]]
+        orb_r = GR.group(no, "rhombohedral").orbit(xr)
+        Pr = np.array([[float(x) for x in p] for p, _ in orb_r])
+        ok_sep = True
+        if len(Pr) > 1:
+            Dd = Pr[:, None, :] - Pr[None, :, :]
+            dd = np.abs(Dd - np.round(Dd)).sum(axis=2)
+            dd[np.diag_indices(len(Pr))] = 1.0
+            ok_sep = dd.min() >= 1e-4
+        if ok_sep:
+            mh = structure.multiplicity([float(x) for x in pos], sgno=no, cell_choice="standard")
+            mr = structure.multiplicity([float(x) for x in xr], sgno=no, cell_choice=GR.fresh("rhombohedral"))
+            if mh != 3 * mr:
+                ctx.fail("hex-vs-rhomb-multiplicity/Sg%d" % no, "Sg%d: multiplicity %d at %s on hexagonal axes, %d at the same point on rhombohedral axes (obverse), expected a factor 3" % (
+                    no, mh, [str(p) for p in pos], mr))
+            ctx.event("hex-vs-rhomb-relation-checked")
+        if case["x"][2] % 8 == 0:
+            # ... and, a few times per run, over the whole lattice of sixths (216 points: every inversion centre,
+            # rotation axis and centring-related site of the R groups)
+            sixth = [Fr(i, 6) for i in range(6)]
+            nbad = 0
+            for ph in itertools.product(sixth, repeat=3):
+                xr6 = [ph[0] + ph[2], -ph[0] + ph[1] + ph[2], -ph[1] + ph[2]]
+                mh = structure.multiplicity([float(x) for x in ph], sgno=no, cell_choice="standard")
+                mr = structure.multiplicity([float(x) for x in xr6], sgno=no, cell_choice="rhombohedral")
+                if mh != 3 * mr and nbad < 3:
+                    nbad += 1
+                    ctx.fail("hex-vs-rhomb-multiplicity/Sg%d" % no, "Sg%d: multiplicity %d at %s on hexagonal axes, %d at the same point on rhombohedral axes (obverse), expected a factor 3" % (
+                        no, mh, [str(p) for p in ph], mr))
+            ctx.event("hex-vs-rhomb-relation-scan(216 points)")
     special = exact < g.nsymop
     nonsym = any(not np.array_equal(R, R.T) for R in g.R)
     nonbin = any(p.denominator % 3 == 0 for p in pos)
